@@ -533,7 +533,7 @@ func main() {
 
 	n := 300
 	if tier == "thorough" {
-		n = hx.Atoi(os.Getenv("VERIF_C03_N"), 3000)
+		n = hx.Atoi(os.Getenv("VERIF_C03_N"), 8000)
 	}
 	nontrivial := 0
 	seen := map[string]bool{}
